@@ -18,7 +18,11 @@ use std::io::Write;
 use std::os::fd::{AsRawFd, FromRawFd};
 
 pub const VARS: [&str; 6] = ["NO_COLOR", "CLICOLOR_FORCE", "CLICOLOR", "TERM", "COLORTERM", "CI"];
-const VALUES: [&str; 14] = ["", "0", "1", "dumb", "xterm-256color", "true", "false", "truecolor", "24bit", "vt100", " ", "00", "DUMB", NON_UTF8];
+const VALUES: [&str; 24] = [
+    "", "0", "1", "dumb", "xterm-256color", "true", "false", "truecolor", "24bit", "vt100", " ", "00", "DUMB", NON_UTF8,
+    // every string literal the query code itself mentions on any platform, and common TERM values
+    "cygwin", "xterm", "linux", "screen", "ansi", "msys", "unknown", "TRUECOLOR", "no", "woodpecker",
+];
 /// Stands for an environment value that is not valid UTF-8 (the bytes FF FE are what is really set).
 const NON_UTF8: &str = "\u{fffd}<non-utf8 bytes ff fe>";
 
